@@ -49,6 +49,7 @@ type desc struct {
 	NFun    int         `json:"nfun,omitempty"`
 	Cutoff  float64     `json:"cutoff,omitempty"`
 	NoMarch bool        `json:"no_march,omitempty"` // marching cases: only AddField vs AddFieldParallel
+	Seam    bool        `json:"seam,omitempty"`     // marching cases: surface extremes placed around a block border
 	Race    bool        `json:"race,omitempty"`     // replay: execute with the -race binary
 	RaceSub bool        `json:"race_sub,omitempty"` // part of the subset executed by the -race binary in this tier
 	Report  string      `json:"report,omitempty"`   // race cases: the detector's report (informational)
@@ -350,7 +351,7 @@ func instantiate(e desc, n, s, variant int) desc {
 }
 
 func sphereField(lo, hi [3]int, r2 int) fieldDesc {
-	return fieldDesc{Lo: lo, Hi: hi, C: [3]int{(lo[0] + hi[0]) / 2, (lo[1] + hi[1]) / 2, (lo[2] + hi[2]) / 2}, R2: r2}
+	return fieldDesc{Lo: lo, Hi: hi, C: [3]int{(lo[0] + hi[0]) / 2, (lo[1] + hi[1]) / 2, (lo[2] + hi[2]) / 2}, R2: r2, Off: surfaceOffset}
 }
 
 func fixedMarch() []desc {
@@ -375,6 +376,140 @@ func fixedMarch() []desc {
 		// empty canvas: both variants panic with the declared error
 		m(0, surfaceOffset),
 	}
+}
+
+// ---- seam canvases -------------------------------------------------------------------------------------
+// The last layer of cubes of a block (local index 99) takes its +x/+y/+z corners from the first samples of the
+// neighbouring block.  A small signed-distance sphere (cutoff 0, never-written cells are outside) is placed so that
+// its extreme along one axis lies at a chosen position relative to a block border B: within the seam layer
+// (B-1, B), a hair above B-1 or below B, just short of the layer or just across the border.  Only the two blocks
+// next to the border are allocated.  side = -1: the sphere sits in the upper block and its MINIMUM reaches
+// towards the lower block; side = +1: it sits in the lower block and its MAXIMUM reaches up.
+const hair = 1.0 / (1 << 20)
+
+var seamIn = []float64{-1 + hair, -0.75, -0.5, -0.25, -hair}     // extreme - B: inside the seam layer
+var seamOut = []float64{-1.5, -1.25, -1 - hair, hair, 0.25, 0.5} // just short of the layer / on or across the border
+
+// sphere whose extreme along axis is B+delta; slot selects one of four disjoint places in the other two axes
+func seamSphere(axis, side, border int, delta float64, slot int, base [3]int) fieldDesc {
+	var f fieldDesc
+	e := float64(border) + delta
+	var c int
+	var r float64
+	if side < 0 {
+		c = border + 6
+		r = float64(c) - e
+	} else {
+		c = border - 7
+		r = e - float64(c)
+	}
+	o1, o2 := (axis+1)%3, (axis+2)%3
+	f.C[axis] = c
+	f.C[o1] = base[o1] + 25 + 45*(slot%2)
+	f.C[o2] = base[o2] + 25 + 45*(slot/2%2)
+	ri := int(r) + 3
+	for a := 0; a < 3; a++ {
+		f.Lo[a], f.Hi[a] = f.C[a]-ri, f.C[a]+ri
+	}
+	// make sure the block on the far side of the border is allocated by the field's margin
+	if side < 0 && f.Lo[axis]-1 > border-2 {
+		f.Lo[axis] = border - 1
+	}
+	if side > 0 && f.Hi[axis]+1 < border+1 {
+		f.Hi[axis] = border
+	}
+	f.R = r
+	return f
+}
+
+func seamCanvas(axis, side, border int, deltas []float64, base [3]int, nfun int) desc {
+	d := desc{Entry: "march", NFun: nfun, Cutoff: 0, Seam: true}
+	for i, dl := range deltas {
+		if i >= 4 {
+			break
+		}
+		d.Fields = append(d.Fields, seamSphere(axis, side, border, dl, i, base))
+	}
+	return d
+}
+
+func seamPlan(thorough bool) []desc {
+	var out []desc
+	borders := []int{0, 100}
+	if thorough {
+		borders = []int{-100, 0, 100, 200}
+	}
+	if !thorough {
+		// quick: one "tripod" per border: the block below the border in all three axes owns seam triangles of
+		// spheres sitting in its three upper neighbours and has no sample of its own inside any of them
+		for bi, b := range borders {
+			d := desc{Entry: "march", NFun: 1, Cutoff: 0, Seam: true}
+			base := [3]int{b - 100, b - 100, b - 100}
+			for axis := 0; axis < 3; axis++ {
+				d.Fields = append(d.Fields,
+					seamSphere(axis, -1, b, seamIn[(axis+bi)%2], 0, base),   // a hair inside the layer / -0.75
+					seamSphere(axis, -1, b, seamIn[3+(axis+bi)%2], 1, base)) // -0.25 / a hair below the border
+			}
+			out = append(out, d)
+		}
+		for axis := 0; axis < 3; axis++ {
+			b := []int{100, -100, 0}[axis]
+			if axis%2 == 0 {
+				out = append(out, seamCanvas(axis, +1, b, []float64{seamIn[1], seamIn[4], seamOut[3], seamOut[5]}, [3]int{0, 0, 0}, 1))
+			} else {
+				out = append(out, seamCanvas(axis, -1, b, []float64{seamOut[0], seamOut[2], seamOut[3], seamOut[4]}, [3]int{-100, -100, -100}, 2))
+			}
+		}
+		return out
+	}
+	for axis := 0; axis < 3; axis++ {
+		for bi, b := range borders {
+			base := [3]int{0, 0, 0}
+			if (axis+bi)%2 == 1 {
+				base = [3]int{-100, -100, -100} // the other two axes in block -1
+			}
+			// lower block owns seam triangles without a sample of its own inside the surface
+			out = append(out, seamCanvas(axis, -1, b, []float64{seamIn[0], seamIn[1], seamIn[3], seamIn[4]}, base, 1))
+			out = append(out, seamCanvas(axis, -1, b, []float64{seamIn[2]}, base, 2))
+			out = append(out, seamCanvas(axis, +1, b, []float64{seamIn[0], seamIn[2], seamIn[4]}, base, 1))
+			out = append(out, seamCanvas(axis, -1, b, seamOut[:4], base, 1))
+			out = append(out, seamCanvas(axis, +1, b, seamOut[2:], base, 1))
+		}
+	}
+	return out
+}
+
+// random placement: 1-3 small spheres next to random borders of random axes, extremes drawn from the lists above or
+// uniformly in [-1.5, 0.5]
+func randomSeam(r *hx.Rng) desc {
+	d := desc{Entry: "march", NFun: 1, Cutoff: 0, Seam: true}
+	if r.Chance(1, 4) {
+		d.NFun = 2
+	}
+	axis, side := r.Intn(3), hx.Pick(r, []int{-1, -1, 1})
+	border := hx.Pick(r, []int{-100, 0, 100, 200})
+	base := [3]int{0, 0, 0}
+	if r.Bool() {
+		base = [3]int{-100, -100, -100}
+	}
+	n := r.Range(1, 3)
+	class := r.Intn(3)
+	for i := 0; i < n; i++ {
+		var dl float64
+		switch class {
+		case 0:
+			dl = hx.Pick(r, seamIn)
+		case 1:
+			dl = -1 + float64(r.Range(1, 63))/64 // inside the layer
+		default:
+			dl = -1.5 + float64(r.Range(0, 128))/64
+			if dl == -1 || dl == 0 {
+				dl += hair
+			}
+		}
+		d.Fields = append(d.Fields, seamSphere(axis, side, border, dl, i, base))
+	}
+	return d
 }
 
 func randomMarch(r *hx.Rng) desc {
@@ -542,6 +677,20 @@ func buildPlan(tier string, seed uint64, n int) []desc {
 		d.RaceSub = thorough || i == 1 || i == 6
 		plan = append(plan, d)
 	}
+	// surfaces whose extremes lie in / next to the seam layer between two blocks
+	for _, d := range seamPlan(thorough) {
+		d.RaceSub = false
+		plan = append(plan, d)
+	}
+	nrand := 3
+	if thorough {
+		nrand = 40
+	}
+	for k := 0; k < nrand; k++ {
+		d := randomSeam(r)
+		d.RaceSub = thorough && k%8 == 0
+		plan = append(plan, d)
+	}
 	// accumulation only, repeated on fresh canvases (cheap; the -race binary needs the chunk allocations of
 	// several workers to overlap with each other and with the dispatcher): three attributes over two blocks,
 	// one attribute over eight and over twelve unallocated blocks
@@ -586,6 +735,7 @@ var (
 	fWorker  = flag.Bool("worker", false, "internal: execute plan items")
 	fWRace   = flag.Bool("wrace", false, "internal: worker runs the race subset and only reports verdicts")
 	fWFrom   = flag.Int("wfrom", 0, "internal: first plan index")
+	fWTo     = flag.Int("wto", 0, "internal: end of the plan slice (exclusive; 0 = whole plan)")
 	fWRes    = flag.String("wres", "", "internal: result file (json lines)")
 	fOne     = flag.String("one", "", "internal: execute this single description (json)")
 )
@@ -612,7 +762,11 @@ func workerMain(run *hx.Run) {
 	}
 	w := bufio.NewWriterSize(f, 1<<20)
 	enc := json.NewEncoder(w)
-	for i := *fWFrom; i < len(plan); i++ {
+	end := len(plan)
+	if *fWTo > 0 && *fWTo < end {
+		end = *fWTo
+	}
+	for i := *fWFrom; i < end; i++ {
 		d := plan[i]
 		if *fWRace && !d.RaceSub {
 			continue
@@ -658,16 +812,21 @@ type childReport struct {
 var reMarker = regexp.MustCompile(`^@@(BEGIN|END|DONE)\s*(\d*)`)
 
 func driveChild(bin string, race bool, run *hx.Run, one string, planLen int, deadline time.Duration) childReport {
+	return driveSlice(bin, race, run, one, 0, planLen, deadline)
+}
+
+// drive a child over the plan slice [from0, planLen)
+func driveSlice(bin string, race bool, run *hx.Run, one string, from0, planLen int, deadline time.Duration) childReport {
 	rep := childReport{results: map[int]wresult{}, crashes: map[int]string{}, races: map[int]string{}, nraces: map[int]int{}, allrace: map[int][]string{}}
-	tag := "w"
+	tag := fmt.Sprintf("w%d", from0)
 	if race {
 		tag = "wrace"
 	}
 	resFile := filepath.Join(run.OutDir, tag+"-results.jsonl")
 	os.Remove(resFile)
-	from := 0
+	from := from0
 	for attempt := 0; attempt < 8; attempt++ {
-		args := []string{"-worker", "-wfrom", strconv.Itoa(from), "-wres", resFile, "-tier", run.Tier,
+		args := []string{"-worker", "-wfrom", strconv.Itoa(from), "-wto", strconv.Itoa(planLen), "-wres", resFile, "-tier", run.Tier,
 			"-seed", strconv.FormatUint(run.Seed, 10), "-n", strconv.Itoa(run.N), "-out", run.OutDir}
 		if race {
 			args = append(args, "-wrace")
@@ -833,7 +992,27 @@ func main() {
 	if *fRaceBin != "" {
 		go func() { raceCh <- driveChild(*fRaceBin, true, run, "", len(plan), deadline) }()
 	}
-	rep := driveChild(self, false, run, "", len(plan), deadline)
+	// two normal children: the mesh cases and the (slow) marching cases run side by side
+	split := len(plan)
+	for i, d := range plan {
+		if d.Entry == "march" {
+			split = i
+			break
+		}
+	}
+	marchCh := make(chan childReport, 1)
+	go func() { marchCh <- driveSlice(self, false, run, "", split, len(plan), deadline) }()
+	rep := driveSlice(self, false, run, "", 0, split, deadline)
+	mrep := <-marchCh
+	for k, v := range mrep.results {
+		rep.results[k] = v
+	}
+	for k, v := range mrep.crashes {
+		rep.crashes[k] = v
+	}
+	if rep.failed == "" {
+		rep.failed = mrep.failed
+	}
 	for i, d := range plan {
 		addPlain(run, d, i, rep)
 	}
@@ -890,6 +1069,10 @@ func addPlain(run *hx.Run, d desc, i int, rep childReport) {
 	}
 	r, ok := rep.results[i]
 	if !ok {
+		// never lose a case silently: a plan item without result and without crash record is a harness failure
+		run.Add(hx.Case{Kind: kindOf(d), Desc: d, Coq: "CRace 0 0", Key: d.key(),
+			GoFail: "harness: no result was recorded for this case (worker lost its output?) " + rep.failed})
+		run.Count("missing-result")
 		return
 	}
 	for k, v := range r.Counts {
